@@ -23,6 +23,7 @@ import (
 	"github.com/DataDog/datadog-traceroute/cache"
 	"github.com/DataDog/datadog-traceroute/icmp"
 	"github.com/DataDog/datadog-traceroute/packets"
+	"github.com/DataDog/datadog-traceroute/publicip"
 	"github.com/DataDog/datadog-traceroute/result"
 	"github.com/DataDog/datadog-traceroute/reversedns"
 	"github.com/DataDog/datadog-traceroute/server"
@@ -99,6 +100,9 @@ type Request struct {
 	EchoBase   uint32               `json:"echo_base,omitempty"`
 	PktIDBase  uint32               `json:"pktid_base,omitempty"`
 	Noise      []NoiseItem          `json:"noise,omitempty"`
+	Flood      *FloodSpec           `json:"flood,omitempty"`
+	Providers  map[string][]ProviderStep `json:"providers,omitempty"` // when set, the real PublicIPFetcher runs over a scripted transport
+	ProviderDefault []ProviderStep  `json:"provider_default,omitempty"`
 }
 
 type ReqOutcome struct {
@@ -116,6 +120,7 @@ type ReqOutcome struct {
 	SackAccept int
 	GorBefore, GorAfter int
 	Port       int // effective port (after SackSrv)
+	RT         *scriptedRT
 }
 
 type stubFetcher struct {
@@ -159,6 +164,7 @@ func RunRequest(t *testing.T, rq *Request) *ReqOutcome {
 	}
 	world := NewNetWorld(scripts...)
 	world.Noise = rq.Noise
+	world.Flood = rq.Flood
 	out.World = world
 	p := rq.P
 	if rq.SackSrv {
@@ -239,7 +245,13 @@ func RunRequest(t *testing.T, rq *Request) *ReqOutcome {
 					}
 				}()
 			}
-			tr := traceroute.NewTracerouteWithFetcher(fetcher)
+			var fx publicip.Fetcher = fetcher
+			if rq.Providers != nil || rq.ProviderDefault != nil {
+				rt := newScriptedRT(rq.Providers, rq.ProviderDefault)
+				out.RT = rt
+				fx = publicip.NewPublicIPFetcherWithClient(&http.Client{Transport: rt})
+			}
+			tr := traceroute.NewTracerouteWithFetcher(fx)
 			out.GorBefore = runtime.NumGoroutine()
 			begin := time.Now()
 			func() {
